@@ -463,3 +463,218 @@ def ts3(F, R):
             g1 = guarded(fn, b, g_cmp("Le", True, lambda a, idx=idx: a[:2] == ("arg", idx), lambda z, hi=hi: z[:2] == ("c", hi)))[0]
             g2 = guarded(fn, b, g_cmp("Lt", True, lambda a, idx=idx: a[:2] == ("arg", idx), lambda z, hi=hi: z[:2] == ("c", hi + 1)))[0]
             R.require(g1 or g2, fn, "range:" + nm, "Ok must require %s <= %d" % (nm, hi), fn.loc(b, i))
+
+
+IDX_SOURCE = {"get_volume_by_id": "open_volumes", "get_dir_by_id": "open_dirs", "get_file_by_id": "open_files"}
+
+
+def _index_sources(fn, t, depth=0):
+    """the get_*_by_id call(s) that *produce* the index value t (not calls nested in their arguments)"""
+    t = strip_refs(t)
+    if depth > 12:
+        return set()
+    if t[0] == "place":
+        return _index_sources(fn, t[1], depth + 1)
+    if t[0] == "cast":
+        return _index_sources(fn, t[2], depth + 1)
+    if t[0] == "call" and t[1]:
+        nm = t[1].split("::")[-1]
+        if nm in IDX_SOURCE:
+            return {nm}
+        if nm in ("branch", "unwrap", "expect", "map_err", "unwrap_or", "clone", "from", "into") and t[2]:
+            return _index_sources(fn, t[2][0], depth + 1)
+        return set()
+    if t[0] == "var":
+        out = set()
+        for d in var_def_terms(fn, t[1]):
+            out |= _index_sources(fn, d, depth + 1)
+        return out
+    return set()
+
+
+@rule("IX1", ["C08", "C01", "C07"], floor=100,
+      doc="index/table agreement: an index obtained from get_volume_by_id only ever subscripts open_volumes, one from get_dir_by_id only open_dirs, one from get_file_by_id only open_files (in every function of volume_mgr, in reads, stores and call arguments) - a slot number of one table is meaningless in another")
+def ix1(F, R):
+    from .fsmodel import table_of_term, TABLES
+    n = 0
+    for fn in F.fns:
+        if not fn.npath.startswith("volume_mgr::") or fn.npath.startswith("volume_mgr::tests"):
+            continue
+        seen = set()
+
+        def visit(term, b):
+            nonlocal n
+            for q in subterms(term):
+                if q[0] != "place":
+                    continue
+                proj = q[2]
+                for k, e in enumerate(proj):
+                    if not (isinstance(e, tuple) and e[0] == "idx"):
+                        continue
+                    tab = None
+                    for x in reversed(proj[:k]):
+                        if isinstance(x, str) and x in TABLES:
+                            tab = x
+                            break
+                    if tab is None:
+                        tab = table_of_term(q[1])
+                    if tab is None:
+                        continue
+                    srcs = _index_sources(fn, e[1])
+                    if not srcs:
+                        continue
+                    key = (tab, tuple(sorted(srcs)), b)
+                    if key in seen:
+                        continue
+                    seen.add(key)
+                    n += 1
+                    want = {IDX_SOURCE[s] for s in srcs}
+                    R.require(want == {tab}, fn, "index:%s" % tab, "%s is subscripted with an index obtained from %s (a slot of %s)" % (tab, "/".join(sorted(srcs)), "/".join(sorted(want))), fn.loc(b),
+                              okdetail="%s[%s(..)]" % (tab, "/".join(sorted(srcs))))
+
+        for b, i, s in fn.stmts():
+            if s["k"] == "Assign":
+                visit(fn.term_of_rvalue(s["rv"], b), b)
+                if s["p"]["proj"]:
+                    visit(fn.term_of_place(s["p"]), b)
+        for b, t in fn.calls():
+            for a in t["args"]:
+                visit(fn.term_of_operand(a, b), b)
+        for b in fn.live_blocks():
+            t = fn.term(b)
+            if t["k"] == "SwitchInt":
+                visit(fn.term_of_operand(t["discr"], b), b)
+    R.require(n >= 100, None, "sites", "expected >= 100 table subscripts with a traced index, found %d" % n)
+
+
+@rule("FT12", ["C16", "C03"], floor=4,
+      doc="every FAT update is mirrored whenever the volume has a second FAT: in update_fat the choice between write_back_with_duplicate(dup) and the plain write_back() is a match on one local that is None initially and is set to Some(..) on every path on which self.second_fat_start is Some - it depends on the volume's geometry only, never on a parameter or on which entry is written")
+def ft12(F, R):
+    fn = F.fn(FATVOL + "::update_fat")
+    wbd = [b for b, t in fn.calls() if call_matches(t, ("BlockCache::write_back_with_duplicate",))]
+    wb = [b for b, t in fn.calls() if call_matches(t, ("BlockCache::write_back",)) and not call_matches(t, ("BlockCache::write_back_with_duplicate",))]
+    R.require(len(wbd) >= 1, fn, "sites", "no mirrored write-back in update_fat", fn.loc(0))
+    if not wbd:
+        return
+    # form A: the write-back is chosen by matching self.second_fat_start itself
+    is_geo = lambda var: (lambda g: g.kind == "variant" and g.variant == var and g.term[0] == "place" and last_field(g.term) == "second_fat_start" and strip_refs(g.term[1])[:2] == ("arg", 1))
+    if all(guarded(fn, b, is_geo("Some"))[0] for b in wbd) and all(guarded(fn, b, is_geo("None"))[0] for b in wb):
+        R.ok(fn, "decider", "write-back variant chosen by matching self.second_fat_start directly")
+        for k in ("plain-only-if-none", "decider-defs", "some-implies-dup", "geometry-tests"):
+            R.ok(fn, k, "(implied by the direct match)")
+        return
+    # form B: the deciding local
+    R.require(len(wbd) == 1 and len(wb) <= 1, fn, "sites-b", "expected one mirrored write-back (and at most one plain one) in update_fat, found %d / %d" % (len(wbd), len(wb)), fn.loc(0))
+    if len(wbd) != 1:
+        return
+    cands = set()
+    for (gb, gi, g) in all_guards(fn):
+        if g.kind == "variant" and g.variant == "Some" and strip_refs(g.term)[0] == "var" and fn.unreachable_without(wbd[0], [(gb, gi)]):
+            cands.add(strip_refs(g.term)[1])
+    R.require(len(cands) == 1, fn, "decider", "the mirrored write-back must be selected by `if let Some(dup) = <local>` directly (found deciding locals %s): a filtered / recomputed condition makes mirroring depend on something other than the volume's geometry" % sorted(cands), fn.loc(wbd[0]))
+    if len(cands) != 1:
+        return
+    v = cands.pop()
+    for b in wb:
+        g, _ = guarded(fn, b, lambda g: g.kind == "variant" and g.variant == "None" and strip_refs(g.term)[:2] == ("var", v))
+        R.require(g, fn, "plain-only-if-none", "the unmirrored write_back() is reachable although the duplicate location is known", fn.loc(b))
+    defs = fn.defs().get(v, [])
+    dts = [(d, fn.term_of_rvalue(d[3], d[1]) if d[0] == "assign" else fn.call_term(d[2], d[1])) for d in defs if d[0] in ("assign", "call")]
+    somes = [d for d, t in dts if t[0] == "agg" and t[2] and t[2].endswith("Option::Some")]
+    others = [tstr(t) for d, t in dts if not (t[0] == "agg" and t[2] and (t[2].endswith("Option::Some") or t[2].endswith("Option::None")))]
+    R.require(not others and len(somes) >= 2, fn, "decider-defs", "the duplicate location must be None or Some(location) only (found %s; %d Some-definitions)" % (others, len(somes)), fn.loc(0))
+    # whenever second_fat_start is Some the local becomes Some before the write-back
+    n = 0
+    for (gb, gi, g) in all_guards(fn):
+        if g.kind == "variant" and g.variant == "Some" and g.term[0] == "place" and last_field(g.term) == "second_fat_start" and strip_refs(g.term[1])[:2] == ("arg", 1):
+            n += 1
+            tgt = fn.succ(gb)[gi][0]
+            free = fn.reach([tgt], cut_blocks=[d[1] for d in somes])
+            R.require(not any(b in free for b in wbd + wb), fn, "some-implies-dup", "a path on which second_fat_start is Some reaches the write-back without recording the duplicate location", fn.loc(gb))
+    R.require(n >= 2, fn, "geometry-tests", "expected the second_fat_start test in both FAT arms, found %d" % n, fn.loc(0))
+
+
+@rule("LF8", ["C17"], floor=6,
+      doc="carry discipline of LfnBuffer::push (fragments arrive last-first): the held-back unit is taken (Option::take) and decoded *after* this fragment's units (chain(fragment, carry)); an unpaired surrogate is held back only as the first item decoded from the fragment - the flag deciding that is true before the loop and set to false on every trip round the decode loop, whatever the item was - and is otherwise replaced by U+FFFD; decoded chars are emitted back to front")
+def lf8(F, R):
+    fn = F.fn("filesystem::filename::LfnBuffer::push")
+    dec = [(b, fn.call_term(t, b)) for b, t in fn.calls() if (callee_of(t) or "").endswith("decode_utf16")]
+    R.require(len(dec) == 1, fn, "decode-site", "expected one decode_utf16 call", fn.loc(0))
+    if len(dec) != 1:
+        return
+    src = strip_refs(dec[0][1][2][0])
+    ok = src[0] == "call" and src[1] and src[1].endswith("::chain") and len(src[2]) == 2
+    if ok:
+        first, second = src[2]
+        ok = has_sub(first, lambda q: q[:2] == ("arg", 2)) and not has_sub(first, lambda q: q[0] == "call" and q[1] and q[1].endswith("Option::take"))
+        ok = ok and has_sub(second, lambda q: q[0] == "call" and q[1] and q[1].endswith("Option::take") and has_sub(q, lambda z: z[0] == "place" and last_field(z) == "unpaired_surrogate"))
+    R.require(ok, fn, "carry-after-fragment", "decode_utf16 must run over chain(this fragment's units, the unit carried over from the previous call taken with Option::take); got %s" % tstr(src)[:200], fn.loc(dec[0][0]))
+    # the decode loop
+    loops = [(h, body, backs) for (h, body, backs) in fn.loops() if any(fn.term(b)["k"] == "Call" and (callee_of(fn.term(b)) or "").endswith("Iterator::next") and "DecodeUtf16" in fn.term(b).get("callee_full", "") for b in body)]
+    R.require(len(loops) == 1, fn, "decode-loop", "expected one loop over the decoder", fn.loc(0))
+    if len(loops) != 1:
+        return
+    h, body, backs = loops[0]
+    saves = [(b, i) for b, i, s in fn.stmts() if b in body and s["k"] == "Assign" and s["p"]["proj"] and s["p"]["proj"][-1][0] == "field" and s["p"]["proj"][-1][2] == "unpaired_surrogate"]
+    R.require(len(saves) == 1, fn, "save-site", "expected one place where a surrogate is held back", fn.loc(h))
+    flag = None
+    for (b, i) in saves:
+        for (gb, gi, g) in all_guards(fn):
+            if g.kind == "bool" and g.truth is True and strip_refs(g.term)[0] == "var" and fn.unreachable_without(b, [(gb, gi)]) and fn.locals[strip_refs(g.term)[1]]["ty"] == "bool":
+                flag = strip_refs(g.term)[1]
+        R.require(flag is not None, fn, "save-only-first", "a surrogate is held back without testing that it is the first item of the fragment", fn.loc(b, i))
+        isErr, _ = guarded(fn, b, lambda g: g.kind == "variant" and g.variant == "Err")
+        R.require(isErr, fn, "save-only-unpaired", "the carry is stored for an item that is not an unpaired surrogate", fn.loc(b, i))
+    if flag is None:
+        return
+    defs = fn.defs().get(flag, [])
+    vals = [(d[1], fn.term_of_rvalue(d[3], d[1])) for d in defs if d[0] == "assign"]
+    init_true = [b for b, v in vals if v[:2] == ("c", 1) and b not in body]
+    clears = [b for b, v in vals if v[:2] == ("c", 0) and b in body]
+    other = [tstr(v) for b, v in vals if v[:2] not in (("c", 1), ("c", 0))] + [d for d in defs if d[0] != "assign"]
+    R.require(len(init_true) == 1 and clears and not other and not [b for b, v in vals if v[:2] == ("c", 1) and b in body], fn, "flag-defs", "the first-item flag must be true before the loop and only ever cleared inside it (defs: %s)" % [(b, tstr(v)) for b, v in vals], fn.loc(h))
+    # every trip round the loop clears the flag
+    inside = fn.reach([h], cut_blocks=clears + [x for x in fn.live_blocks() if x not in body])
+    again = [bs for bs in backs if bs in inside]
+    R.require(not again, fn, "flag-cleared-every-item", "the decode loop can go round without clearing the first-item flag (e.g. when the item was an unpaired surrogate): a second unpaired surrogate then overwrites the held one instead of becoming U+FFFD", fn.loc(h))
+    # otherwise U+FFFD
+    repl = [b for b, t in fn.calls() if b in body and (callee_of(t) or "").endswith("::push") and any(fn.term_of_operand(a, b)[:2] == ("c", 0xFFFD) for a in t["args"])]
+    okr = len(repl) == 1 and guarded(fn, repl[0], lambda g: g.kind == "bool" and g.truth is False and strip_refs(g.term)[:2] == ("var", flag))[0]
+    R.require(okr, fn, "else-replacement", "an unpaired surrogate that is not the first item must be replaced by U+FFFD", fn.loc(h))
+    # emission order
+    revs = [tstr(fn.call_term(t, b)) for b, t in fn.calls() if (callee_of(t) or "").endswith("Iterator::rev")]
+    R.require(len(revs) == 2 and any("char_vec" in r or "deref" in r for r in revs) and any("bytes(" in r for r in revs), fn, "back-to-front", "chars and their UTF-8 bytes must both be emitted back to front (the buffer is filled from its end); rev() sites: %s" % [r[:60] for r in revs], fn.loc(0))
+
+
+@rule("CD5", ["C18", "C06"], floor=4,
+      doc="printing an 8.3 name: Display walks all 11 bytes in order and prints byte c (as the ISO-8859-1 character `c as char`) exactly when c != 0x20 - no other byte is ever dropped - preceded by '.' exactly when its index is 8; so a printed name parses back to the same 11 bytes (the parser half is CD3)")
+def cd5(F, R):
+    fns = [f for f in F.fns if f.npath.startswith("<filesystem::filename::ShortFileName as core::fmt::Display>::fmt") and f.kind != "Closure"]
+    R.require(len(fns) == 1, None, "anchor", "Display impl of ShortFileName not found")
+    if len(fns) != 1:
+        return
+    fn = fns[0]
+    loops = [(h, body, backs) for (h, body, backs) in fn.loops() if any(fn.term(b)["k"] == "Call" and (callee_of(fn.term(b)) or "").endswith("Iterator::next") and "Enumerate" in fn.term(b).get("callee_full", "") for b in body)]
+    R.require(len(loops) == 1, fn, "byte-loop", "expected one enumerate() loop over the name bytes", fn.loc(0))
+    if len(loops) != 1:
+        return
+    h, body, backs = loops[0]
+    nxt = [b for b in body if fn.term(b)["k"] == "Call" and (callee_of(fn.term(b)) or "").endswith("Iterator::next")][0]
+    itd = var_def_terms(fn, strip_refs(fn.term_of_operand(fn.term(nxt)["args"][0], nxt))[1])
+    R.require(len(itd) == 1 and "enumerate(iter(" in tstr(itd[0]) and has_sub(itd[0], lambda q: q[0] == "place" and last_field(q) == "contents" and strip_refs(q[1])[:2] == ("arg", 1)), fn, "all-bytes", "the loop must enumerate self.contents from the start, iterates %s" % [tstr(x) for x in itd], fn.loc(h))
+    item = lambda k: (lambda q: q[0] == "place" and tuple(q[2][:3]) == ("as:Some", "0", k) and q[1][0] == "call" and q[1][3] == nxt)
+    writes = [(b, fn.call_term(fn.term(b), b)) for b in body if fn.term(b)["k"] == "Call" and (callee_of(fn.term(b)) or "").split("::")[-1] in ("write_fmt", "write_str", "write_char")]
+    chars = [(b, t) for b, t in writes if has_sub(t, lambda q: q[0] == "cast" and q[1] == "char" and has_sub(q[2], item("1")))]
+    dots = [(b, t) for b, t in writes if '"."' in tstr(t)]
+    R.require(len(chars) == 1 and len(dots) == 1 and len(writes) == 2, fn, "writes", "expected exactly two output sites in the byte loop (the '.' and the byte as a char), found %d" % len(writes), fn.loc(h))
+    not_space = lambda g: g.kind == "bool" and g.term[0] == "cmp" and g.term[1] == "Eq" and g.truth is False and has_sub(g.term[2], item("1")) and g.term[3][:2] == ("c", 0x20)
+    is_space = lambda g: g.kind == "bool" and g.term[0] == "cmp" and g.term[1] == "Eq" and g.truth is True and has_sub(g.term[2], item("1")) and g.term[3][:2] == ("c", 0x20)
+    for b, t in chars:
+        # printed iff != ' ' : guarded by the not-space edge, and from the loop body entry no *other* test lies between
+        g = guarded(fn, b, not_space)[0]
+        others = [(gb, gi, gg) for (gb, gi, gg) in all_guards(fn) if gb in body and fn.unreachable_without(b, [(gb, gi)]) and not not_space(gg) and not (gg.kind == "variant" and gg.variant in ("Some", "Continue"))]
+        R.require(g and not others, fn, "printed-iff-not-space", "a name byte must be printed exactly when it is not 0x20; extra / different conditions: %s" % [repr(x[2])[:80] for x in others], fn.loc(b))
+    for b, t in dots:
+        g1 = guarded(fn, b, not_space)[0]
+        g2 = guarded(fn, b, lambda g: g.kind == "bool" and g.term[0] == "cmp" and g.term[1] == "Eq" and g.truth is True and has_sub(g.term[2], item("0")) and g.term[3][:2] == ("c", 8))[0]
+        R.require(g1 and g2 and all(cb in fn.reach_after(b, cut_blocks=[h]) for cb, _ in chars), fn, "dot-at-8", "the '.' must be written before the first printed extension byte (index 8) and nowhere else", fn.loc(b))
